@@ -297,7 +297,8 @@ Proof.
 Qed.
 
 (* ---- one stream per peer, as long as no OnDisconnect orphaned a sender record ---- *)
-Definition orphaning (e : event) : bool := match e with EDisc _ => true | _ => false end.
+(* the event is not the critical section of OnDisconnect *)
+Definition no_disc (e : event) : bool := match e with EDisc _ => false | _ => true end.
 
 (* without OnDisconnect every valid sender is the mapped one *)
 Definition mapped (s : state) : Prop :=
@@ -308,7 +309,7 @@ Lemma mapped_init : mapped init.
 Proof. unfold mapped. simpl. intros sd x H. destruct sd; discriminate. Qed.
 
 Lemma step_mapped s e s' :
-  Inv s -> failed_inv s -> mapped s -> orphaning e = false -> step s e = Some s' -> mapped s'.
+  Inv s -> failed_inv s -> mapped s -> no_disc e = true -> step s e = Some s' -> mapped s'.
 Proof.
   intros I Mf Mv O H. unfold mapped, failed_inv in *.
   destruct e; try discriminate O; start_ev I H.
@@ -316,27 +317,26 @@ Proof.
   all: intros; unfold has_stream in *; proj; look; repeat caseq; norm; try fin.
   all: try (satm; norm; fin).
   all: match goal with
-  | Hx : nth_error (senders s) ?sd0 = Some ?x, Hi : sd_invalid ?x = false, He : sd_peer ?x = t_peer ?t0,
-    Hm : mget (smap s) (t_peer ?t0) = Some ?sd, Ht : mget (threads s) _ = Some ?t0, Hp : t_pc ?t0 = PFailed ?sd _ |- _ =>
+  | Hx : nth_error (senders _) ?sd0 = Some ?x, Hi : sd_invalid ?x = false, He : sd_peer ?x = t_peer ?t0,
+    Hm : mget (smap _) (t_peer ?t0) = Some ?sd, Ht : mget (threads _) _ = Some ?t0, Hp : t_pc ?t0 = PFailed ?sd _ |- _ =>
       pose proof (Mv _ _ Hx Hi) as A; rewrite He, Hm in A; injection A as <-;
       pose proof (Mf _ _ _ _ Ht Hp) as B; rewrite Hx in B; simpl in B; congruence
   end.
 Qed.
 
 Lemma run_mapped evs : forall s s', Inv s -> failed_inv s -> mapped s ->
-  forallb (fun e => negb (orphaning e)) evs = true -> run evs s = Some s' -> mapped s'.
+  forallb no_disc evs = true -> run evs s = Some s' -> mapped s'.
 Proof.
   induction evs as [|e evs IH]; intros s s' I Mf M F R; simpl in R, F.
   - injection R as <-. exact M.
   - destruct (step s e) as [s1|] eqn:E; [|discriminate]. apply andb_prop in F. destruct F as [F1 F2].
     apply (IH s1 s' (step_inv _ _ _ I E) (step_failed _ _ _ I Mf E)); auto. eapply step_mapped; eauto.
-    destruct (orphaning e); [discriminate|reflexivity].
 Qed.
 
 (* exchanges with one peer go over at most one stream, as long as no sender
    record was orphaned by a disconnect notification *)
 Theorem one_stream_per_peer evs s st1 y1 st2 y2 :
-  run evs init = Some s -> forallb (fun e => negb (orphaning e)) evs = true ->
+  run evs init = Some s -> forallb no_disc evs = true ->
   nth_error (streams s) st1 = Some y1 -> sm_cli y1 = COpen ->
   nth_error (streams s) st2 = Some y2 -> sm_cli y2 = COpen ->
   sm_peer y1 = sm_peer y2 -> st1 = st2.
@@ -353,6 +353,16 @@ Proof.
   assert (sm_owner y1 = sm_owner y2) by congruence.
   eapply one_stream_per_sender; eauto.
 Qed.
+
+Theorem failed_prep_invalidated evs s t th sd e :
+  run evs init = Some s -> mget (threads s) t = Some th -> t_pc th = PFailed sd e ->
+  option_map sd_invalid (nth_error (senders s) sd) = Some true.
+Proof. intro R. exact (reachable_failed evs s R t th sd e). Qed.
+
+Theorem valid_sender_is_mapped evs s sd x :
+  run evs init = Some s -> forallb no_disc evs = true ->
+  nth_error (senders s) sd = Some x -> sd_invalid x = false -> mget (smap s) (sd_peer x) = Some sd.
+Proof. intros R F. exact (run_mapped evs init s Inv_init failed_init mapped_init F R sd x). Qed.
 
 Theorem closed_forever_reach evs0 evs s s' st y :
   run evs0 init = Some s -> run evs s = Some s' ->
